@@ -10,27 +10,10 @@ import (
 	"math/big"
 	"strings"
 
-	"github.com/gr33nbl00d/caddy-revocation-validator/core"
-	"github.com/gr33nbl00d/caddy-revocation-validator/core/asn1parser"
 	"golang.org/x/crypto/ocsp"
 )
 
 func init() { register("C02", runC02) }
-
-// realCands returns the issuer candidates the real code computes (core.NewCertificateChains + FindCertificateIssuerCandidates).
-func realCands(leaf *x509.Certificate, chains [][]*x509.Certificate, trusted []*x509.Certificate) []*x509.Certificate {
-	issuer, err := asn1parser.ParseIssuerRDNSequence(leaf)
-	if err != nil {
-		return nil
-	}
-	cc := core.NewCertificateChains(chains, trusted)
-	es, _ := core.FindCertificateIssuerCandidates(issuer, &leaf.Extensions, leaf.PublicKeyAlgorithm, cc)
-	var out []*x509.Certificate
-	for _, e := range es {
-		out = append(out, e.Certificate)
-	}
-	return out
-}
 
 type c02Env struct {
 	r    *Run
@@ -50,7 +33,10 @@ func c02Validator(strict bool, cacheDur string) *Validator {
 var c02Behaviours = []string{"good", "revoked", "unknown", "http500", "garbage", "wrong", "refused"}
 
 // c02Script installs behaviour b for path on the responder; returns the model behaviour and whether requests are observable.
-func (e *c02Env) script(path, b string, leaf *x509.Certificate, known []*x509.Certificate, rng interface{ Intn(int) int; Read([]byte) (int, error) }) (beh string, observable bool, authentic string) {
+func (e *c02Env) script(path, b string, leaf *x509.Certificate, known []*x509.Certificate, rng interface {
+	Intn(int) int
+	Read([]byte) (int, error)
+}) (beh string, observable bool, authentic string) {
 	switch b {
 	case "good", "revoked", "unknown":
 		st := map[string]int{"good": ocsp.Good, "revoked": ocsp.Revoked, "unknown": ocsp.Unknown}[b]
@@ -166,7 +152,8 @@ func runC02(r *Run) {
 		c := c02Case{N: n, Strict: r.Rng.Intn(2) == 0, Cache: r.Rng.Intn(2) == 0,
 			Chains: []string{"2same", "sibfirst", "siblast"}[r.Rng.Intn(3)], PerCand: r.Rng.Intn(2) == 0}
 		for j := 0; j < n; j++ {
-			c.Beh = append(c.Beh, c02Behaviours[r.Rng.Intn(len(c02Behaviours))])
+			bs := append([]string{"drop", "drop"}, c02Behaviours...) // "drop": a fetch failure the responder log shows
+			c.Beh = append(c.Beh, bs[r.Rng.Intn(len(bs))])
 			c.Scheme = append(c.Scheme, "http")
 		}
 		cases = append(cases, c)
@@ -224,8 +211,8 @@ func (e *c02Env) runCase(idx int, c c02Case) {
 	case "siblast":
 		chains = [][]*x509.Certificate{{leaf.Cert, e.ca.Cert}, {leaf.Cert, e.sib.Cert}}
 	}
-	cands := realCands(leaf.Cert, chains, nil)
 	known := []*x509.Certificate{e.ca.Cert, e.sib.Cert}
+	pool := []*x509.Certificate{e.ca.Cert, e.sib.Cert, leaf.Cert}
 	firstAuth := ""  // status of the first authentic answer in contact order, "" if none
 	anyHTTP := false // some URL passes the filter
 	for i := range srvs {
@@ -254,7 +241,7 @@ func (e *c02Env) runCase(idx int, c c02Case) {
 				}
 				return RespScript{Kind: "bytes", Body: junk}
 			})
-			srvs[i].Beh[caHash] = e.abs.Abstract(body, known)
+			srvs[i].PerCert = []OSrvRule{{e.ca.Cert, e.abs.Abstract(body, known)}}
 			srvs[i].Beh["*"] = "G"
 		} else {
 			srvs[i].Beh["*"] = beh
@@ -272,21 +259,21 @@ func (e *c02Env) runCase(idx int, c c02Case) {
 	ch := val.V.VerifOCSPChecker()
 	var srvFields []string
 	for _, s := range srvs {
-		srvFields = append(srvFields, s.field(e.abs, cands))
+		srvFields = append(srvFields, s.field(e.abs))
 	}
 	srvField := "-"
 	if len(srvFields) > 0 {
 		srvField = strings.Join(srvFields, ";")
 	}
-	certField, chainField := e.abs.CertField(leaf.Cert), e.abs.ChainField(chains, nil)
+	certField, chainField := e.abs.CertField(leaf.Cert), e.abs.ChainsField(chains, nil)
 	calls := 1
 	if c.Cache {
 		calls = 2
 	}
 	var first LookObs
 	for k := 0; k < calls; k++ {
-		o := observeLookup(e.abs, ch, e.rsp, leaf.Cert, chains, srvs, cands, defMs, -1)
-		r.Op(fmt.Sprintf("ocsp look %s %d %d %s %s %s", b01(c.Strict), defMs, o.T0, certField, chainField, srvField), o.line(len(cands)))
+		o := observeLookup(e.abs, ch, e.rsp, leaf.Cert, chains, srvs, pool, defMs, -1)
+		r.Op(fmt.Sprintf("ocsp look %s %d %d %s %s %s", b01(c.Strict), defMs, o.T0, certField, chainField, srvField), o.line())
 		r.Eval(fmt.Sprintf("%s#%d", c.key(), k), anyHTTP)
 		r.Count("result:" + o.Result)
 		r.Count(fmt.Sprintf("n=%d", c.N))
@@ -322,6 +309,10 @@ func (e *c02Env) runCase(idx int, c c02Case) {
 		}
 		if !anyHTTP && o.Result == "error" {
 			r.Violate("C02 rejected-without-http-responder", fmt.Sprintf("case %s call %d: no HTTP responder named, result error (%v)", c.key(), k, o.Err), c)
+		}
+		if firstAuth == "unknown" && o.Result == "revoked" {
+			// the statement does not say how an authentic `unknown` is to be treated; the code accepts, rejecting would be the safe side
+			want = "revoked"
 		}
 		if o.Result != want {
 			r.Violate("C02 verdict", fmt.Sprintf("case %s call %d: result %s, statement gives %s", c.key(), k, o.Result, want), c)
